@@ -207,9 +207,8 @@ inline constexpr void Conversion<Unit::Frequency, Unit::Frequency::PerHour>::ToS
 }
 
 template <typename NumericType>
-inline const std::
-    map<Unit::Frequency, std::function<void(NumericType* values, const std::size_t size)>>
-        MapOfConversionsFromStandard<Unit::Frequency, NumericType>{
+inline constexpr auto MapOfConversionsFromStandard<Unit::Frequency, NumericType>{
+  MakeConversionTable<Unit::Frequency, NumericType>({
           {Unit::Frequency::Hertz,
            Conversions<Unit::Frequency, Unit::Frequency::Hertz>::FromStandard<NumericType>    },
           {Unit::Frequency::Kilohertz,
@@ -222,12 +221,12 @@ inline const std::
            Conversions<Unit::Frequency, Unit::Frequency::PerMinute>::FromStandard<NumericType>},
           {Unit::Frequency::PerHour,
            Conversions<Unit::Frequency, Unit::Frequency::PerHour>::FromStandard<NumericType>  },
+})
 };
 
 template <typename NumericType>
-inline const std::
-    map<Unit::Frequency, std::function<void(NumericType* const values, const std::size_t size)>>
-        MapOfConversionsToStandard<Unit::Frequency, NumericType>{
+inline constexpr auto MapOfConversionsToStandard<Unit::Frequency, NumericType>{
+  MakeConversionTable<Unit::Frequency, NumericType>({
           {Unit::Frequency::Hertz,
            Conversions<Unit::Frequency, Unit::Frequency::Hertz>::ToStandard<NumericType>    },
           {Unit::Frequency::Kilohertz,
@@ -240,6 +239,7 @@ inline const std::
            Conversions<Unit::Frequency, Unit::Frequency::PerMinute>::ToStandard<NumericType>},
           {Unit::Frequency::PerHour,
            Conversions<Unit::Frequency, Unit::Frequency::PerHour>::ToStandard<NumericType>  },
+})
 };
 
 }  // namespace Internal
